@@ -169,15 +169,25 @@ pub fn o_pred(y: i32, m: u32, d: u32) -> (i32, u32, u32) {
     }
 }
 
-/// Day of the year (1 Jan = 1), by summing month lengths.
+/// Day of the year (1 Jan = 1): days in the months before `m` (loop-free so that no unwinding
+/// bound is needed) plus `d`.
 pub fn o_doy(y: i32, m: u32, d: u32) -> u32 {
-    let mut n = d;
-    let mut k = 1;
-    while k < m {
-        n += o_dim(y, k);
-        k += 1;
-    }
-    n
+    let feb = if o_leap(y) { 29 } else { 28 };
+    let before = match m {
+        1 => 0,
+        2 => 31,
+        3 => 31 + feb,
+        4 => 62 + feb,
+        5 => 92 + feb,
+        6 => 123 + feb,
+        7 => 153 + feb,
+        8 => 184 + feb,
+        9 => 215 + feb,
+        10 => 245 + feb,
+        11 => 276 + feb,
+        _ => 306 + feb,
+    };
+    before + d
 }
 
 /// Lexicographic order on triples.
@@ -252,4 +262,150 @@ impl<const N: usize> std::fmt::Write for Sink<N> {
         self.len += b.len();
         Ok(())
     }
+}
+
+// ---------------------------------------------------------------------------------------------
+// Values of the crate's types from raw counts (the documented type invariants are assumed by
+// the caller with `kani::assume`; the unchecked constructors are the crate's own public API)
+// ---------------------------------------------------------------------------------------------
+use crate::{Date, IntervalDT, IntervalYM, Time, Timestamp};
+
+pub fn mk_date(n: i32) -> Date {
+    unsafe { Date::from_days_unchecked(n) }
+}
+pub fn mk_time(t: i64) -> Time {
+    unsafe { Time::from_usecs_unchecked(t) }
+}
+pub fn mk_ts(u: i64) -> Timestamp {
+    unsafe { Timestamp::from_usecs_unchecked(u) }
+}
+pub fn mk_ym(m: i32) -> IntervalYM {
+    unsafe { IntervalYM::from_months_unchecked(m) }
+}
+pub fn mk_dt(u: i64) -> IntervalDT {
+    unsafe { IntervalDT::from_usecs_unchecked(u) }
+}
+#[cfg(feature = "oracle")]
+pub fn mk_od(u: i64) -> crate::OracleDate {
+    unsafe { crate::OracleDate::from_usecs_unchecked(u) }
+}
+
+pub fn any_i32_in(lo: i32, hi: i32) -> i32 {
+    let n: i32 = kani::any();
+    kani::assume(n >= lo && n <= hi);
+    n
+}
+pub fn any_i64_in(lo: i64, hi: i64) -> i64 {
+    let n: i64 = kani::any();
+    kani::assume(n >= lo && n <= hi);
+    n
+}
+/// Any valid `Date` (as a day number).
+pub fn any_date() -> Date {
+    mk_date(any_i32_in(DAY_MIN, DAY_MAX))
+}
+pub fn any_time() -> Time {
+    mk_time(any_tod())
+}
+pub fn any_ts() -> Timestamp {
+    mk_ts(any_i64_in(TS_MIN, TS_MAX))
+}
+pub fn any_ym() -> IntervalYM {
+    mk_ym(any_i32_in(-YM_MAX, YM_MAX))
+}
+pub fn any_dt() -> IntervalDT {
+    mk_dt(any_i64_in(-DT_MAX, DT_MAX))
+}
+
+// ---------------------------------------------------------------------------------------------
+// Modular contracts (DESIGN.md 2.3).  The stub functions below replace kernels whose
+// correctness over the whole domain is discharged separately (C01 / C07 obligations, which
+// every check that uses a stub also runs).
+// ---------------------------------------------------------------------------------------------
+
+/// YMD-ghost: the day numbers the harness built from known triples, and those triples.
+pub static mut GHOST_J: [i32; 2] = [i32::MIN; 2];
+pub static mut GHOST_YMD: [(i32, u32, u32); 2] = [(0, 0, 0); 2];
+const EPOCH_J: i32 = 2_440_588; // Julian day of 1970-01-01 (checked against the crate in c01_base)
+
+/// Draws any real date of years `ylo..=yhi` as a triple, builds the `Date` with the crate's
+/// forward conversion and registers it (and its calendar successor) as ghosts.
+pub fn ghost_date(ylo: i32, yhi: i32) -> (Date, (i32, u32, u32)) {
+    let (y, m, d) = any_ymd(ylo, yhi);
+    let date = match Date::try_from_ymd(y, m, d) {
+        Ok(x) => x,
+        Err(_) => {
+            assert!(false);
+            mk_date(0)
+        }
+    };
+    register_ghost(date, (y, m, d));
+    (date, (y, m, d))
+}
+
+pub fn register_ghost(date: Date, ymd: (i32, u32, u32)) {
+    unsafe {
+        GHOST_J[0] = date.days() + EPOCH_J;
+        GHOST_YMD[0] = ymd;
+        if date.days() < DAY_MAX {
+            GHOST_J[1] = date.days() + 1 + EPOCH_J;
+            GHOST_YMD[1] = o_succ(ymd.0, ymd.1, ymd.2);
+        }
+    }
+}
+
+/// Stub for `common::julian2date` under the YMD-ghost contract: the ghost answers for the one or
+/// two registered day numbers; any other in-range query gets *some* real date whose forward
+/// conversion is the queried number (unique by C01); out-of-range queries fail the obligation.
+pub fn ghost_julian2date(j: i32) -> (i32, u32, u32) {
+    unsafe {
+        if j == GHOST_J[0] {
+            return GHOST_YMD[0];
+        }
+        if j == GHOST_J[1] {
+            return GHOST_YMD[1];
+        }
+    }
+    assert!(j >= DAY_MIN + EPOCH_J && j <= DAY_MAX + EPOCH_J);
+    let y: i32 = kani::any();
+    let m: u32 = kani::any();
+    let d: u32 = kani::any();
+    kani::assume(o_valid_ymd(y, m, d));
+    kani::assume(crate::verif_support::fwd_julian(y, m, d) == j);
+    (y, m, d)
+}
+
+/// Forward conversion by the oracle: days before the year + day of year (no Julian-day formula).
+/// Used only inside the stub fallback above.
+pub fn fwd_julian(y: i32, m: u32, d: u32) -> i32 {
+    let y1 = (y - 1) as i64;
+    let n = y1 * 365 + y1 / 4 - y1 / 100 + y1 / 400 + o_doy(y, m, d) as i64 - 1; // days since 0001-01-01
+    (n + DAY_MIN as i64 + EPOCH_J as i64) as i32
+}
+
+/// TS-split contract stubs for `Timestamp::{extract, date, time}`: the unique `(n, t)` with
+/// `n * 86_400_000_000 + t == usecs` and `0 <= t < 86_400_000_000` (division lemma instead of a
+/// 64-bit bit-blasted division; discharged for the whole range by the C07 split obligations).
+pub fn split_contract(usecs: i64) -> (i32, i64) {
+    let n: i32 = kani::any();
+    let t: i64 = kani::any();
+    kani::assume(t >= 0 && t < USECS_DAY);
+    kani::assume(n >= -110_000_000 && n <= 110_000_000);
+    kani::assume((n as i128) * (USECS_DAY as i128) + t as i128 == usecs as i128);
+    (n, t)
+}
+pub fn stub_ts_extract(ts: Timestamp) -> (Date, Time) {
+    let (n, t) = split_contract(ts.usecs());
+    (mk_date(n), mk_time(t))
+}
+pub fn stub_ts_date(ts: Timestamp) -> Date {
+    mk_date(split_contract(ts.usecs()).0)
+}
+pub fn stub_ts_time(ts: Timestamp) -> Time {
+    mk_time(split_contract(ts.usecs()).1)
+}
+
+/// `util::try_format` builds error *messages*; replacing it loses message text only.
+pub fn stub_try_format(_args: std::fmt::Arguments<'_>) -> crate::error::Result<String> {
+    Ok(String::new())
 }
